@@ -275,9 +275,35 @@ def build(case):
     raise ValueError(fmt)
 
 
+# MMC 'Number of bytes returned based on data selection field': for sector types that lack a field, a selection that names it is
+# served as the selection given here (byte 9 bits 7-3 -> byte 9 bits 7-3).  Mode 1 (2) and Mode 2 formless (3) have no sub-header;
+# Mode 2 formless has no EDC/ECC.
+READCD_MAPPED = {
+    2: {0x40: 0x00, 0x50: 0x10, 0x58: 0x18, 0x60: 0x20, 0x70: 0x30, 0x78: 0x38, 0xE0: 0xA0, 0xF0: 0xB0, 0xF8: 0xB8},
+    3: {0x38: 0x30, 0x58: 0x10, 0xB8: 0xB0, 0xF8: 0xB0, 0x40: 0x00, 0x50: 0x10, 0x60: 0x20, 0x70: 0x30, 0x78: 0x30, 0xE0: 0xA0, 0xF0: 0xB0},
+}
+READCD_LEGAL = [0x00, 0x10, 0x18, 0x20, 0x30, 0x38, 0x40, 0x50, 0x58, 0x60, 0x70, 0x78, 0xA0, 0xB0, 0xB8, 0xE0, 0xF0, 0xF8]
+
+
+def readcd_layouts():
+    """(expected sector type, 5-bit main channel selection) pairs the decoder is judged on"""
+    out = [(1, 0x02), (1, 0x1F), (1, 0x03), (1, 0x1E)]
+    for est in (2, 3, 4, 5):
+        for b9 in READCD_LEGAL:
+            if est in (4, 5) and b9 in (0x30, 0x38, 0xB0, 0xB8):
+                continue            # illegal for XA sectors
+            if est == 3 and b9 == 0x18:
+                continue            # (user data + EDC/ECC for a sector type without EDC/ECC: the library refuses it by design; not judged)
+            if est == 5 and b9 & 0x08 and b9 not in (0xF8, 0x18):
+                continue            # (Form 2 EDC selections other than the two already judged: sizes not asserted here)
+            out.append((est, b9 >> 3))
+    return out
+
+
 def readcd_response(est, mcsb, c2, sc, lba, tl):
     data = b""
     exp = {}
+    mcsb = READCD_MAPPED.get(est, {}).get(mcsb << 3, mcsb << 3) >> 3
     user = {1: 2352, 2: 2048, 3: 2336, 4: 2048, 5: 2324}[est]
     for i in range(tl):
         s = {}
@@ -471,6 +497,7 @@ def gen(part, tier):
         for n in (255, 256, 257, 600):
             yield ["vpd80", n, 0]
         yield ["vpd00", list(range(256)), 0]
+        yield ["vpd00", [0x00, 0x80, 0x80, 0x83, 0x83, 0x83], 0]
         for n in range(0, 12):
             for tail in (0, 9):
                 yield ["vpd00", [0x00, 0x80, 0x83, 0x86, 0x89, 0xB0, 0xB1, 0xB2, 0xB3, 0xC0, 0xFF][:n], tail]
@@ -529,6 +556,9 @@ def gen(part, tier):
         for v in bits.alphabet(64):
             yield ["reportluns", [v], 0]
             yield ["reportluns", [1, v], 0]
+        for n in range(2, 4):
+            for ls in itertools.product((0, 1, 0x0001000000000000), repeat=n):       # (equal entries included)
+                yield ["reportluns", list(ls), 0]
         for n in BIG_COUNTS + (255, 256, 257):          # count boundaries (two-digit indices, byte counts / entry counts around 256)
             yield ["reportluns", [(i << 48) | (0x100 + i) for i in range(n)], 0]
             yield ["reportluns", [(i << 48) | (0x100 + i) for i in range(n)], 8]
@@ -583,6 +613,12 @@ def gen(part, tier):
                 yield ["prkeys", 0x01020304, [0x1122334455667788, 1, 0xFFFFFFFFFFFFFFFF][:n], tail]
         for n in (255, 256, 257):
             yield ["prkeys", 9, [0xA000 + i for i in range(n)], 0]
+        # equal entries are legitimate (one key registered through several I_T nexuses) and must be reported as often as listed
+        for n in range(1, 5):
+            for ks in itertools.product((0, 1, 0x1122334455667788), repeat=n):
+                yield ["prkeys", 2, list(ks), 0]
+        for n in (2, 3, 17):
+            yield ["prfull", 9, [[{"reservation_key": 0xB000, "r_holder": 0, "scope": 0, "type": 5, "relative_target_port_id": 1}, 0] for i in range(n)], 0]
         for n in BIG_COUNTS:
             yield ["prkeys", 9, [0xA000 + i for i in range(n)], 0]
             yield ["prfull", 9, [[{"reservation_key": 0xB000 + i, "r_holder": i & 1, "scope": 0, "type": 5, "relative_target_port_id": i}, i % len(TIDS)]
@@ -619,9 +655,7 @@ def gen(part, tier):
         yield ["discinfo", 1, {}, 0, 20]
         yield ["discinfo", 2, {}, 0, 20]
     elif name == "readcd":
-        layouts = [(1, 0x02), (2, 0x02), (2, 0x06), (2, 0x17), (2, 0x03), (3, 0x02), (3, 0x06), (3, 0x16), (4, 0x02), (4, 0x0A), (4, 0x0E),
-                   (4, 0x1F), (5, 0x02), (5, 0x1F), (5, 0x0E)]
-        for est, mcsb in layouts:
+        for est, mcsb in readcd_layouts():
             for c2 in (0, 1, 2):
                 for sc in (0, 2, 4):
                     for tl in (0, 1, 2):
